@@ -952,7 +952,8 @@ class CoqCases:
         src_pts = mark("[" + ";".join("(%s, %s)" % (fhex(a), fhex(b)) for a, b in zip(o["slon"], o["slat"])) + "]")
         tgt_pts = mark("[" + ";".join("(%s, %s)" % (fhex(a), fhex(b)) for a, b in zip(o["tlon"], o["tlat"])) + "]")
         self.valid["chk_vin_numpy"].append(("(%s, %s)" % (src_pts, bl(ref["vii"])), "case %d numpy valid_input_index" % case["id"]))
-        self.valid["chk_vout_numpy"].append(("(%s, %s)" % (tgt_pts, bl(ref["voi"])), "case %d numpy valid_output_index" % case["id"]))
+        if ref.get("n", 0) > 0:     # with no valid source numpy returns _create_empty_info's placeholder (all ones), not the range test
+            self.valid["chk_vout_numpy"].append(("(%s, %s)" % (tgt_pts, bl(ref["voi"])), "case %d numpy valid_output_index" % case["id"]))
 
     def add_numpy(self, ctx, case, meta, ref):
         if ref.get("is_masked"):
